@@ -158,6 +158,9 @@ def fresh_ctx():
     for name, factory in get_all_dialects().items():
         ctx.register_dialect(name, factory)
     ctx.load_dialect(vf_dialect())
+    for cls in _FMT_CLASSES.values():      # operations defined from the formats DeclFormat.tla enumerates
+        if cls is not None:
+            ctx.load_op(cls)
     return ctx
 
 
@@ -371,6 +374,64 @@ def directed_modules() -> list[tuple[Any, str]]:
     return out
 
 
+MC_CFG = "SPECIFICATION Spec\nCONSTANT MaxLen = {n}\nINVARIANT Emit\nINVARIANT KeywordSeparatedFormatsRoundTrip\n"
+_FMT_CLASSES: dict[str, Any] = {}
+
+
+def format_text(fmt) -> str:
+    parts = []
+    for e in fmt:
+        if e[0] == "lit":
+            parts.append(f"`{e[1]}`")
+        elif e[0] == "op":
+            parts.append(f"${e[1]}")
+        else:
+            parts.append(f"(`{e[1]}` ${e[2]}^)?" if e[1] else f"(${e[2]}^)?")
+    used = [n for n in ("x", "y", "z") if any((e[0] == "op" and e[1] == n) or (e[0] == "grp" and e[2] == n) for e in fmt)]
+    return " ".join(parts) + " attr-dict `:`" + "".join(f" `t{n}` type(${n})" for n in used), used
+
+
+def format_class(fmt):
+    """The real operation class for a model format, or None when the engine refuses the format at definition time."""
+    from xdsl.irdl import AttrSizedOperandSegments, IRDLOperation, irdl_op_definition, operand_def, opt_operand_def, var_operand_def
+    from xdsl.utils.exceptions import PyRDLOpDefinitionError
+
+    text, used = format_text(fmt)
+    if text in _FMT_CLASSES:
+        return _FMT_CLASSES[text], used
+    ns: dict[str, Any] = {"name": f"vf.f{len(_FMT_CLASSES)}", "assembly_format": text}
+    if "x" in used:
+        ns["x"] = operand_def()
+    if "y" in used:
+        ns["y"] = opt_operand_def()
+    if "z" in used:
+        ns["z"] = var_operand_def()
+    if "y" in used and "z" in used:
+        ns["irdl_options"] = (AttrSizedOperandSegments(as_property=True),)
+    try:
+        cls = irdl_op_definition(type("VF_" + ns["name"].replace(".", "_"), (IRDLOperation,), ns))
+    except PyRDLOpDefinitionError:
+        cls = None
+    _FMT_CLASSES[text] = cls
+    return cls, used
+
+
+def model_formats(ctx: Ctx, maxlen: int):
+    """TLC enumerates the formats of DeclFormat.tla and, per format, the instances its greedy parser does not give back."""
+    from .. import tlc
+
+    r = tlc.run("irdl/DeclFormat.tla", cfg_text=MC_CFG.format(n=maxlen), workers=1, timeout=3000)   # one worker: the records are multi-line
+    if r.violated:
+        raise tlc.TLCMachineryError(f"DeclFormat.tla violates {r.violated}:\n" + "\n".join(r.out.splitlines()[-20:]))
+    fmts = []
+    for rec in r.records:
+        if len(rec) >= 4 and rec[1] == "fmt":
+            fmts.append((rec[2], rec[3]))
+    ctx.cov_add("states", r.distinct)
+    ctx.coverage.setdefault("models", {})[f"DeclFormat MaxLen={maxlen}"] = {"formats": len(fmts), "ambiguous_in_the_model": sum(1 for _f, a in fmts if a)}
+    return fmts
+
+
 def print_op(op, generic: bool) -> str:
     from xdsl.printer import Printer
 
@@ -453,6 +514,42 @@ def run(ctx: Ctx):
         roundtrip(ctx, m, {"source": "synthetic declarative formats", "file": label}, cases, metas)
     for m, label in directed_modules():
         roundtrip(ctx, m, {"source": "directed hand-written formats", "file": label}, cases, metas)
+    # formats enumerated by TLC from DeclFormat.tla, defined for real, instantiated in every way
+    from xdsl.dialects import test as _test
+    from xdsl.dialects.builtin import ModuleOp as _ModuleOp, UnitAttr as _UnitAttr, f32 as _f32, i32 as _i32, IndexType as _IndexType
+
+    fmts = model_formats(ctx, 3 if q else 4)
+    stats = {"refused_by_the_engine": 0, "accepted": 0, "accepted_but_ambiguous_in_the_model": 0, "refused_although_unambiguous_in_the_model": 0}
+    model_bad: dict[int, bool] = {}
+    for fmt, ambiguous in fmts:
+        cls, used = format_class(fmt)
+        if cls is None:
+            stats["refused_by_the_engine"] += 1
+            if not ambiguous:
+                stats["refused_although_unambiguous_in_the_model"] += 1
+            continue
+        stats["accepted"] += 1
+        if ambiguous:
+            stats["accepted_but_ambiguous_in_the_model"] += 1
+        bad = {(tuple((n, a["xyz".index(n)]) for n in used), a[3]) for a in ambiguous} if ambiguous else set()
+        counts = {"x": [1], "y": [0, 1], "z": [0, 1, 2]}
+        for combo in itertools.product(*[counts[n] for n in used]):
+            for d in (0, 1):
+                p = _test.TestOp.create(result_types=[_i32, _f32, _IndexType()])
+                pos, operands = 0, []
+                for n, c in zip(used, combo):
+                    vals = [p.results[(pos + j) % 3] for j in range(c)]
+                    pos += c
+                    operands.append(vals[0] if n == "x" else vals)
+                try:
+                    op = cls.build(operands=operands, attributes={"u": _UnitAttr()} if d else {})
+                except Exception:  # noqa: BLE001
+                    continue
+                before = len(cases)
+                roundtrip(ctx, _ModuleOp([p, op]), {"source": "formats enumerated by DeclFormat.tla", "file": f"{format_text(fmt)[0]} with {dict(zip(used, combo))}{' and an attribute' if d else ''}"}, cases, metas)
+                if len(cases) > before:
+                    model_bad[before] = (tuple(zip(used, combo)), d) in bad
+    ctx.coverage["declarative_formats_from_the_model"] = stats
     n_syn = len(cases)
     from .c01_c2s import corpus_modules
 
@@ -499,9 +596,14 @@ def run(ctx: Ctx):
         import re
         return sorted(set(re.findall(r"(?:^|\s|=\s)([a-z_][\w]*\.[\w.]+)", text)))[:12]
 
+    n_amb_real = 0
     for i, c in enumerate(cases):
         if c["failed"]:
             m = metas[i]
+            if model_bad.get(i):      # DeclFormat.tla: no greedy parser gives this instance back - the format should have been refused
+                n_amb_real += 1
+                ctx.diverge("an ambiguous format the engine accepts: " + m["file"], clause=c["failed"])
+                continue
             ctx.violate(f"[{m['source']}] {m['file']}: {c['failed']} fails: {m['error']}\n{m['text'][:500]}",
                         {"clause": c["failed"], "source": m["source"], "file": m["file"], "error": m["error"][:160], "text": m["text"][:2000]}, clause=c["failed"])
     by_case: dict[int, dict[int, Any]] = {}
@@ -510,6 +612,10 @@ def run(ctx: Ctx):
     for idx, pairs in by_case.items():
         i = idx_map[idx]
         m = metas[i]
+        if model_bad.get(i):
+            n_amb_real += 1
+            ctx.diverge("an ambiguous format the engine accepts: " + m["file"], clause="CustomFormParsesToEquivalentIR")
+            continue
         # when the custom form does not give back the original, its disagreement with the generic form is the same failure
         j = 1 if 1 in pairs else 2
         which = "CustomFormParsesToEquivalentIR" if j == 1 else "CustomAndGenericFormsAgree"
@@ -517,6 +623,8 @@ def run(ctx: Ctx):
         ctx.violate(f"[{m['source']}] {m['file']}: {which} ({pairs[j]}; first difference at {fd['op']} {fd['key']})\n{m['text'][:500]}",
                     {"clause": which, "detail": str(pairs[j]), "op": fd["op"], "key": fd["key"], "difference_class": fd.get("class", ""), "source": m["source"], "file": m["file"],
                      "text": m["text"][:2000]}, clause=which)
+    ctx.coverage["declarative_formats_from_the_model"]["instances_of_ambiguous_formats_that_do_not_round_trip_for_real"] = n_amb_real
+    ctx.coverage["declarative_formats_from_the_model"]["instances_the_model_calls_ambiguous"] = sum(1 for v in model_bad.values() if v)
     op_names = set()
     for m in metas:
         op_names.update(ops_of(m["text"]))
